@@ -4,7 +4,7 @@ from pyvc.dsl import *  # noqa
 klass("IdGenerator", fields=dict(_id_counter=Int), record=False)
 klass("Compiler", fields=dict(id_generator="IdGenerator"), record=False)
 
-contract("gherkin.stream.id_generator.IdGenerator.get_next_id",
+contract("gherkin.stream.id_generator.IdGenerator.get_next_id", inline=True,
          args=dict(self="IdGenerator"), returns=Str,
          modifies=["self._id_counter"],
          ensures=[
